@@ -62,6 +62,16 @@ Theorem c14_user_params_meaning : forall sc sets e lb w l r, nth_error sets (N.t
   user_params sc sets e lb = Some (if is_zero3 e then (l, r, f64_cost sc (f64_of_bits w)) else (le_lid e, le_rid e, le_cost e)).
 Proof. intros sc sets e lb w l r H. unfold user_params. rewrite H. now destruct (is_zero3 e). Qed.
 
+(** unk.def of the same writer model: the rows of the seed unk.def in the stored order (grouped by category, [unk_stored])
+    come back with their category name, feature bytes and the merged parameters of their labels (category names hold no
+    comma, quote or line break) *)
+Theorem c14_unk_rows : forall sc rows sets txt,
+  Forall seed_ok rows -> Forall (fun r => s_surface (l_head r) <> []) rows ->
+  Forall (fun r => needs_quote (s_surface (l_head r)) = false) rows -> Forall ids_ok sets ->
+  gen_rows sc (fun e => le_surface e) (map lentry rows) sets = Ok txt ->
+  parse_lex_csv txt = Ok (map (emitted_entry sc) (combine rows sets)) /\ length (combine rows sets) = length rows.
+Proof. exact unk_roundtrip. Qed.
+
 Example c14_f64_example :
   let ws := map f64_of_bits [4612811918334230528; 13826050856027422720; 0]%Z in   (* 2.5, -0.5, 0.0 *)
   map (f64_cost (f64_scale ws)) ws = [-32767; 6553; 0]%Z.
@@ -79,3 +89,4 @@ Print Assumptions c14_f64_cost_i16.
 Print Assumptions c14_written_lexicon.
 Print Assumptions c14_user_rows.
 Print Assumptions c14_user_params_meaning.
+Print Assumptions c14_unk_rows.
